@@ -71,6 +71,8 @@ def run(F, R):
     _lf = _c3.last_used_field(F, M, byrole['can_pop'][0]) if 'can_pop' in byrole else None
     if _lf:
         _c3.e1_e2_pop(F, RuleProxy(R, {'E1': 'Q8', 'E2': 'Q8'}), M, byrole['pop_used'][0], _lf)
+        # ... and every used-ring read of the queue API (peek included) takes the id from the used ring slot of the trusted index
+        _c3.e2b_all_slots(F, RuleProxy(R, {'E2': 'Q8'}), M, _lf)
     users = [n for n, a in F.adts.items() if a['kind'] == 'struct' and n not in (M.owning_adt,) and any(
         M.owning_adt in f['mentions'] for f in a['variants'][0]['fields'])]
     R.count('users', len(users) + 1)
